@@ -209,5 +209,8 @@ def parse_type_string(tstr: str) -> type:
                 raise ValueError(f"unparsable type string {tstr}")
             mod_name, typ_name = parts.groups()
 
-        mod = import_module(mod_name)
-        return getattr(mod, typ_name)
+        obj = import_module(mod_name)
+        # the qualified name of a nested class contains dots
+        for part in typ_name.split("."):
+            obj = getattr(obj, part)
+        return obj
